@@ -8,7 +8,8 @@ for l in open('/verif/properties.jsonl'):
     p = json.loads(l)
     if p['id'] == pid:
         break
-extra = "" if rnd == "1" else "Go beyond the most obvious single-comparison flips: aim for mechanisms such as state carried between two uses of the same object or process (caches, reused buffers or parser/lexer values, package-level variables), two cooperating sites of which only one is changed, an option combination that no shipped grammar uses, or an input shape at a size or structure boundary (table width, nesting depth, number of states/symbols, multi-byte characters). "
+extra3 = "Two earlier rounds of such changes have already been produced for this property, so avoid the most natural targets. Look at: the interaction of two or more options (e.g. minimizeDFA, optimizeTables, defaultReduce, recursiveLookaheads, cancellable, tokenStream, fixWhitespace, eventFields, scanBytes, caseInsensitive, nonBacktracking, as far as they matter for this property); rarely used grammar features (templates and flags, lookahead predicates, %inject, state markers, no-eoi and multiple inputs, precedence, separators, sets, start conditions); where the property is about generated code, the templates rather than the library; behaviour at the second or third use within one process or on one object; and sizes beyond the usual small cases (long rules, many states or symbols, deep nesting, multi-byte input). If the project already violates the property on its unmodified tree for some input you come across, describe that separately in NOTES.md (it is valuable), but still deliver A and B. "
+extra = "" if rnd == "1" else extra3 if rnd == "3" else "Go beyond the most obvious single-comparison flips: aim for mechanisms such as state carried between two uses of the same object or process (caches, reused buffers or parser/lexer values, package-level variables), two cooperating sites of which only one is changed, an option combination that no shipped grammar uses, or an input shape at a size or structure boundary (table width, nesting depth, number of states/symbols, multi-byte characters). "
 print(f"""You are helping to evaluate a verification effort by playing the adversary. You work ONLY inside the git worktree {wt} (a checkout of the Go project inspirer/textmapper: a LALR(1) parser + lexer generator; `go.mod` says go 1.25). Do not read or write anything under /verif or /repo, and do not look at other /tmp/seed-* or /tmp/wt-* directories. Shell env for every go command: `export GOFLAGS=-mod=mod GOPROXY=off` and use plain `go` (no network is available; everything needed is cached).
 
 Here is a semantic property that the project is supposed to satisfy:
